@@ -169,6 +169,9 @@ func slashHistories(run *evid.Run, cfg Cfg, kind string) {
 		},
 		func() bool { env.FreshKeys(4); return true },
 		func() error { return env.Stack.Restart() })
+	if kind == "att" {
+		slashGiantBatches(run, cfg, env)
+	}
 	run.Count("pairs_compared", env.Slash.Pairs)
 	run.Count("record_before_sign_checks", env.SignChecks())
 	if env.SignChecks() == 0 {
@@ -517,4 +520,66 @@ func judgeProp(run *evid.Run, env *Env, c *PropCase, res core.Result, sig []byte
 		run.Violate(fmt.Sprintf("proposal slots not strictly increasing for key%d: signed slot %d after slot %d", c.Key.Index, c.Data.Slot, w.MaxSlot), witness())
 	}
 	w.SignedProp(c.Data.Slot)
+}
+
+// slashGiantBatches sends attestation batches beyond a thousand entries (an operator with that many validators
+// sends them every epoch): an advancing batch, then the same targets with another root in the same process, then
+// again after a restart.  Every release goes to the slashability oracle and through the record-before-sign monitor.
+func slashGiantBatches(run *evid.Run, cfg Cfg, env *Env) {
+	sizes := []int{1025, 2049}
+	if cfg.Thorough() {
+		sizes = []int{1023, 1024, 1025, 1500, 2048, 2049, 3100}
+	}
+	for si, n := range sizes {
+		env.FreshKeys(n)
+		epoch := uint64(50 + si)
+		mk := func(root byte, byKey bool) []*AttCase {
+			cs := make([]*AttCase, n)
+			for i := range cs {
+				cs[i] = &AttCase{Key: env.Keys[i], Name: env.Names[i], Addr: ByName, Data: &rules.SignBeaconAttestationData{
+					Domain: Dom(DomainAttester, 0), Slot: epoch * 32, CommitteeIndex: uint64(i % 64), BeaconBlockRoot: Root32(root),
+					Source: &rules.Checkpoint{Epoch: epoch - 1, Root: Root32(1)}, Target: &rules.Checkpoint{Epoch: epoch, Root: Root32(2)}}}
+				if byKey {
+					cs[i].Addr = ByKey
+				}
+			}
+			return cs
+		}
+		round := func(label string, root byte, byKey, mustSign bool) {
+			cs := mk(root, byKey)
+			res, sigs := env.SignAtts(ViaService, cs)
+			signed := 0
+			for i := range cs {
+				run.Eval(1)
+				if i >= len(res) || res[i] != core.ResultSucceeded || i >= len(sigs) || len(sigs[i]) == 0 {
+					continue
+				}
+				sr := cs[i].SigningRoot()
+				if ok, _ := oracle.VerifySig(cs[i].Key.Pub, sr[:], sigs[i]); !ok {
+					run.Violate(fmt.Sprintf("giant batch n=%d %s: signature at position %d does not verify for its entry", n, label, i), nil)
+					continue
+				}
+				signed++
+				if why := env.Slash.AddAtt(cs[i].Key.Pub48(), epoch-1, epoch, cs[i].DataRoot()); why != "" {
+					run.Violate(fmt.Sprintf("giant batch n=%d %s position %d: slashable attestation released: %s", n, label, i, why), nil)
+				}
+			}
+			run.Count("giant_batch_entries", n)
+			run.Count("giant_batch_released", signed)
+			run.Distinct(fmt.Sprintf("giant batch n=%d %s signed=%d", n, label, signed))
+			if mustSign && signed != n {
+				run.Violate(fmt.Sprintf("giant batch n=%d %s: only %d of %d advancing attestations for distinct fresh keys were signed", n, label, signed, n), nil)
+			}
+		}
+		round("advancing", 0xaa, si%2 == 1, true)
+		round("conflicting, same process", 0xbb, si%2 == 0, false)
+		if err := env.Stack.Restart(); err != nil {
+			run.Inconclusive("restart failed: " + err.Error())
+			return
+		}
+		round("conflicting, after restart", 0xcc, false, false)
+		if run.NumViolations() >= 5 {
+			return
+		}
+	}
 }
